@@ -440,7 +440,13 @@ impl FaceModify {
             face.bg = Some(bg);
         }
         if let Some(underline) = self.underline {
-            face.attrs |= underline.into();
+            // NOTE: underline style is packed as a number, it can not be merged
+            //       with `|=` which would mix bits of old and new styles and is
+            //       not able to remove underline.
+            face.attrs = face
+                .attrs
+                .remove(FaceAttrs::UNDERLINE)
+                .insert(underline.into());
         }
         // TODO: underline_color
         for (update, flag) in [
